@@ -359,6 +359,7 @@ class WritableStream(io.RawIOBase):
         self.pos = 0
         self._toggle = 0
         self._exp_header = None
+        self._exp_data = b""
         self._done = False
 
         if size is None or size < 1 or size > 4 or force_segment:
@@ -390,12 +391,14 @@ class WritableStream(io.RawIOBase):
             raise RuntimeError("All expected data has already been transmitted")
         if self._exp_header is not None:
             # Expedited download
-            if len(b) < self.size:
-                # Not enough data provided
-                return 0
-            if len(b) > 4:
+            self._exp_data += bytes(b)
+            if len(self._exp_data) < self.size:
+                # Not enough data provided yet, keep it until the rest arrives
+                self.pos += len(b)
+                return len(b)
+            if len(self._exp_data) > 4:
                 raise AssertionError("More data received than expected")
-            data = b.tobytes() if isinstance(b, memoryview) else b
+            data = self._exp_data
             request = self._exp_header + data.ljust(4, b"\x00")
             response = self.sdo_client.request_response(request)
             res_command, = struct.unpack_from("B", response)
